@@ -18,6 +18,40 @@ PURE_FUNCS = {'float', 'int', 'str', 'len', 'sorted', 'list', 'dict', 'tuple', '
               'bytes', 'bool', 'set', 'reversed', 'enumerate', 'zip', 'range', 'isinstance', 'sha256', 'md5'}
 
 
+class _Overlay(dict):
+  """local bindings (comprehension targets) on top of an environment that computes its entries on demand."""
+
+  def __init__(self, parent):
+    dict.__init__(self)
+    self.parent = parent
+
+  def get(self, k, default=None):
+    if dict.__contains__(self, k):
+      return dict.__getitem__(self, k)
+    return self.parent.get(k, default)
+
+  def __contains__(self, k):
+    return dict.__contains__(self, k) or k in self.parent
+
+  def __getitem__(self, k):
+    if dict.__contains__(self, k):
+      return dict.__getitem__(self, k)
+    return self.parent[k]
+
+
+def overlay(env):
+  return dict(env) if type(env) is dict else _Overlay(env)
+
+
+def canon(t):
+  """one spelling per value: x[k] with a constant non-negative index and the k-th unpacked field of x are the same term."""
+  if not isinstance(t, tuple) or not t:
+    return t
+  if t[0] == 'sub' and len(t) == 3 and isinstance(t[2], int) and not isinstance(t[2], bool) and t[2] >= 0:
+    return ('field', canon(t[1]), t[2])
+  return tuple(canon(x) if isinstance(x, tuple) else x for x in t)
+
+
 def either(*ts):
   flat = []
   for t in ts:
@@ -164,7 +198,7 @@ class SymEval(object):
     if isinstance(n, ast.Compare):
       return ('opaque', unparse(n))
     if isinstance(n, (ast.ListComp, ast.GeneratorExp, ast.SetComp)):
-      e2 = dict(env)
+      e2 = overlay(env)
       conds = []
       for g in n.generators:
         it = self.ev(g.iter, e2, fn)
